@@ -1,12 +1,23 @@
 ---------------------------- MODULE TraceEngine ----------------------------
 (***************************************************************************)
-(* Trace specification for C12: every recorded propagation of a real engine  *)
-(* (in-process engines run for real; external engines run against a fake     *)
-(* program whose output timing follows a Poller.tla schedule) is checked      *)
-(* against the engine part of Poller.tla: the path starts at the given        *)
-(* point, every stored order parameter equals the one recomputed from the     *)
-(* configuration the frame references, the stop rule, the program is          *)
-(* stopped, a failing program raises.  cls[k]: 0 inside, 1 left, 2 right.     *)
+(* Trace specification for C12.  Every recorded propagation of a real       *)
+(* engine class is one event: in-process engines (TurtleMD, ASE, the        *)
+(* lattice plug-in) run for real; GROMACS, CP2K and LAMMPS run through       *)
+(* EngineBase.propagate against an impersonated program whose output timing  *)
+(* follows a Poller.tla schedule and whose dynamics is time reversible.      *)
+(*                                                                           *)
+(* The event carries raw numbers (micro-units), the clauses are evaluated    *)
+(* here:                                                                     *)
+(*   stored[k]   order parameter stored in the k-th frame of the path        *)
+(*   recomp[k]   the one recomputed (by the harness' own parser) from the    *)
+(*               configuration that frame references, using that frame's     *)
+(*               coordinates, box and velocity-direction flag                *)
+(*   expect[k]   what a program started from the given phase point in the    *)
+(*               requested direction produces (<<>>: not known)              *)
+(*   start       order parameter of the phase point handed to propagate      *)
+(*   refs, vrev  frame index and velocity-direction flag of each frame       *)
+(*   retrace / retrace_of   a backward propagation from a frame of a forward *)
+(*               path, and the forward frames it has to retrace              *)
 (***************************************************************************)
 EXTENDS Integers, Sequences, FiniteSets, TLC, Json, IOUtils
 
@@ -14,20 +25,31 @@ Tr == ndJsonDeserialize(IOEnv.TRACE_FILE)
 VARIABLES l, bad
 tvars == <<l, bad>>
 
+TOL  == 50       \* stored vs recomputed from the referenced frame (file precision)
+TOLX == 3000     \* against the reference dynamics (round trips through text / single precision)
+Abs(x) == IF x < 0 THEN -x ELSE x
+Cls(ev, k) == IF ev.stored[k] < ev.left THEN 1 ELSE IF ev.stored[k] > ev.right THEN 2 ELSE 0
+
 Clauses(ev) ==
-  [ E_Returned       |-> ev.raised => ev.must_raise,
+  LET n == Len(ev.stored) IN
+  [ E_Returned       |-> ev.raised => (ev.must_raise \/ ev.may_raise),
     E_FailureRaises  |-> ev.must_raise => ev.raised,
-    E_FirstIsStart   |-> ~ev.raised => ev.first_is_start,
-    E_FramesInOrder  |-> ~ev.raised => ev.frames_reference_k,
-    E_OrdersRecomputed |-> ~ev.raised => ev.orders_match,
+    E_FirstIsStart   |-> ~ev.raised => (n >= 1 /\ Abs(ev.stored[1] - ev.start) <= TOL),
+    E_FramesInOrder  |-> ~ev.raised => (ev.samefile /\ Len(ev.refs) = n /\ \A k \in 1..n : ev.refs[k] = k - 1),
+    E_OrdersRecomputed |-> ~ev.raised => (Len(ev.recomp) = n /\ \A k \in 1..n : Abs(ev.stored[k] - ev.recomp[k]) <= TOL),
+    E_VelocityDirection |-> ~ev.raised => (Len(ev.vrev) = n /\ \A k \in 1..n : ev.vrev[k] = ev.reverse),
+    E_RanFromStart   |-> (~ev.raised /\ Len(ev.expect) > 0) =>
+                           \A k \in 1..n : k <= Len(ev.expect) /\ Abs(ev.stored[k] - ev.expect[k]) <= TOLX,
     E_StopRule       |-> ~ev.raised =>
-                           /\ Len(ev.cls) >= 1 /\ Len(ev.cls) <= ev.maxlen
-                           /\ \A k \in 1..(Len(ev.cls) - 1) : ev.cls[k] = 0
-                           /\ ev.success <=> (ev.cls[Len(ev.cls)] # 0)
-                           /\ ~ev.success => Len(ev.cls) = ev.maxlen,
-    E_ExpectedLength |-> (~ev.raised /\ ev.expected_len > 0) => Len(ev.cls) = ev.expected_len,
-    E_ProgramStopped |-> ~ev.raised => ev.program_stopped,
-    E_Retrace        |-> ev.retrace_checked => ev.retrace_ok ]
+                           /\ n >= 1 /\ n <= ev.maxlen
+                           /\ \A k \in 1..(n - 1) : Cls(ev, k) = 0
+                           /\ ev.success <=> (Cls(ev, n) # 0)
+                           /\ ~ev.success => n = ev.maxlen,
+    E_ProgramStopped |-> ev.program_stopped,
+    E_Request        |-> ev.request_ok,
+    E_Retrace        |-> Len(ev.retrace_of) > 0 =>
+                           /\ Len(ev.retrace) = Len(ev.retrace_of)
+                           /\ \A k \in 1..Len(ev.retrace) : Abs(ev.retrace[k] - ev.retrace_of[k]) <= TOLX ]
 Failed(rec) == {n \in DOMAIN rec : ~rec[n]}
 Note(idx, names) == LET RECURSIVE F(_)
                         F(S) == IF S = {} THEN <<>> ELSE
